@@ -4,8 +4,8 @@
    tag filters and their reordering, the TSID tracker that builds the id STRINGS "name{k:v,k:v,",
    down-sampling, the two-level reduction, and the group-id functions that search / split those strings.
    [rmatch] is the regular-expression engine (Go regexp), an arbitrary function. *)
-From SigM Require Import Base Promql.
-From SigP Require Import BaseProofs PromqlProofs PromqlNestProofs.
+From SigM Require Import Base Promql PromqlFormula PromqlCheck.
+From SigP Require Import BaseProofs PromqlProofs PromqlNestProofs PromqlFormulaProofs.
 From Coq Require Import QArith Permutation.
 Open Scope N_scope.
 
@@ -411,3 +411,156 @@ Example C09_nest_by_of_by_nonvacuous :
   extract_guard w_m (by_labels [(w_a, [120]); (w_b, [49])] [w_a; w_b]) w_a = true /\
   agg_series_id (agg_series_id (render_id w_m [(w_a, [120]); (w_b, [49])]) [w_a; w_b] false) [w_a] false = [109; 123; 97; 58; 120].
 Proof. exact extract_guard_by_id_nonvacuous. Qed.
+
+(* ---------- formulas: vector arithmetic through every entry point that evaluates it ----------
+   A formula is a tree of binary operations over operand queries and number literals (SigM.PromqlFormula).  Both the
+   Prometheus endpoints and the metrics-explorer / formula API (ProcessMetricsQueryRequest: queries + formulas) run it through
+   ExecuteMultipleMetricsQuery: every operand is run once per distinct query text (resMap keyed by the hash of the text), the
+   operand POSITIONS with a multi-series result are counted, and with more than one of them labels must match
+   (opLabelsDoNotNeedToMatch := false) whatever the caller asked for.  [run] is the execution of one operand, an arbitrary
+   function; an operand is (hash, query, forced GetAllLabels).
+
+   FULL STATEMENT (property text: arithmetic between vectors matches label sets) for the formula API:
+     forall t db, every vector-vector node of [run_formula true t db] pairs series with equal label sets only.
+   The code does not intend it: while at most one operand position is multi-series, a one-series side is combined with every
+   series of the other side (C09_formula_lone_right_series_pairs_all; known finding formula_lone_series_operand_ignores_labels).
+   Proved: the flag is exactly "fewer than two multi-series operand positions"; whenever two positions are multi-series the labels
+   are matched, also when the two positions carry the SAME query text. *)
+Theorem C09_formula_resmap_first_run : forall (run : query -> bool -> vec) ops h,
+  rm_find h (fst (exec_loop run ops)) = first_run run h ops.
+Proof. exact exec_resmap_first_run. Qed.
+Print Assumptions C09_formula_resmap_first_run.
+
+(* the count is over operand positions, not over distinct texts *)
+Theorem C09_formula_count_is_operand_positions : forall (run : query -> bool -> vec) ops,
+  snd (exec_loop run ops) = length (filter (pos_multi run ops) ops).
+Proof. exact exec_count_is_positions. Qed.
+Print Assumptions C09_formula_count_is_operand_positions.
+
+Theorem C09_formula_flag_false_iff : forall (run : query -> bool -> vec) init ops,
+  exec_flag run init ops = false <->
+  (init = false \/ (2 <= length (filter (pos_multi run ops) ops))%nat).
+Proof. exact exec_flag_false_iff. Qed.
+Print Assumptions C09_formula_flag_false_iff.
+
+Theorem C09_formula_flag_false_when_two_positions_multi : forall (run : query -> bool -> vec) init ops i j o1 o2,
+  i <> j -> nth_error ops i = Some o1 -> nth_error ops j = Some o2 ->
+  pos_multi run ops o1 = true -> pos_multi run ops o2 = true ->
+  exec_flag run init ops = false.
+Proof. exact exec_flag_two_multi_positions. Qed.
+Print Assumptions C09_formula_flag_false_when_two_positions_multi.
+
+(* the hash is the hash of the operand's text: a position works with its own query's result *)
+Theorem C09_formula_position_result_is_own_query : forall (run : query -> bool -> vec) ops o,
+  hash_consistent ops -> In o ops ->
+  pos_multi run ops o = multi (run (snd (fst o)) (snd o)).
+Proof. exact pos_multi_own_result. Qed.
+Print Assumptions C09_formula_position_result_is_own_query.
+
+(* counting distinct query texts instead of positions: m - m over two series of m keeps "labels need not match" and the
+   answer is empty, while the code's count gives one series of zeros per series of m *)
+Theorem C09_formula_count_distinct_texts_refuted :
+  exists t db o1 o2, nth_error (leaves t) 0 = Some o1 /\ nth_error (leaves t) 1 = Some o2 /\
+    pos_multi (run_leaf frag_match db) (leaves t) o1 = true /\ pos_multi (run_leaf frag_match db) (leaves t) o2 = true /\
+    exec_flag_distinct (run_leaf frag_match db) true (leaves t) = true /\
+    run_formula_distinct frag_match true t db = Some [] /\
+    run_formula frag_match true t db <> Some [].
+Proof. exact formula_count_distinct_texts_refuted. Qed.
+Print Assumptions C09_formula_count_distinct_texts_refuted.
+
+Example C09_formula_self_sub_witness :
+  run_formula frag_match true w_t w_db =
+  Some [([109;123;97;58;120;44], [(10%Z, 0%Q); (20%Z, 0%Q)]); ([109;123;97;58;121;44], [(10%Z, 0%Q); (20%Z, 0%Q)])].
+Proof. exact formula_self_sub_witness. Qed.
+
+(* one node.  Every output sample is left op right (operands swapped back) of two samples at the same timestamp *)
+Theorem C09_formula_sample_spec : forall op sw l r t v,
+  In (t, v) (pair_pts op sw l r) ->
+  exists x y, In (t, x) l /\ In (t, y) r /\ fop_sw op sw x y = Some v.
+Proof. exact pair_pts_spec. Qed.
+Print Assumptions C09_formula_sample_spec.
+
+(* labels matched: an output series is a left series paired with the right series that has the same label text *)
+Theorem C09_formula_matching_pairs_equal_label_text : forall op L R id pts,
+  (forall e, In e (snd L) -> (length (fst L) <= length (fst e))%nat) ->
+  In (id, pts) (vv_match op L R) ->
+  exists lp rp, In (id, lp) (snd L) /\ (length (fst L) <= length id)%nat /\
+                In (fst R ++ label_text (fst L) id, rp) (snd R) /\
+                pts = pair_pts op false lp rp /\ pts <> [].
+Proof. exact vv_match_spec_alt2. Qed.
+Print Assumptions C09_formula_matching_pairs_equal_label_text.
+
+(* why the flag must fall: several series on both sides and no label matching pair nothing *)
+Theorem C09_formula_unmatched_multi_is_empty : forall op L R,
+  (2 <= length (snd L))%nat -> (2 <= length (snd R))%nat -> vv_free op L R = [].
+Proof. exact vv_free_multi_both_empty. Qed.
+Print Assumptions C09_formula_unmatched_multi_is_empty.
+
+(* the designed deviation from PromQL: one series on the right is combined with every left series, whatever the labels *)
+Theorem C09_formula_lone_right_series_pairs_all : forall op ln lv rn rid rp, (1 <= length lv)%nat ->
+  vv_free op (ln, lv) (rn, [(rid, rp)]) =
+  flat_map (fun e => match pair_pts op false (snd e) rp with [] => [] | l => [(fst e, l)] end) lv.
+Proof. exact vv_free_one_right. Qed.
+Print Assumptions C09_formula_lone_right_series_pairs_all.
+
+(* the same vector on both sides with labels matched: every series meets itself (m - m, m / m, m + m) *)
+Theorem C09_formula_self_arith : forall op name v,
+  NoDup (map fst v) ->
+  (forall e, In e v -> is_prefix name (fst e) = true) ->
+  (forall e, In e v -> NoDup (map fst (snd e))) ->
+  vv_match op (name, v) (name, v) =
+  flat_map (fun e =>
+    match flat_map (fun tv => match fop_apply op (snd tv) (snd tv) with Some x => [(fst tv, x)] | None => [] end) (snd e) with
+    | [] => []
+    | l => [(fst e, l)]
+    end) v.
+Proof. exact vv_match_self. Qed.
+Print Assumptions C09_formula_self_arith.
+
+Theorem C09_formula_self_sub_is_zero : forall name v,
+  NoDup (map fst v) ->
+  (forall e, In e v -> is_prefix name (fst e) = true) ->
+  (forall e, In e v -> NoDup (map fst (snd e))) ->
+  (forall e, In e v -> snd e <> []) ->
+  vv_match FSub (name, v) (name, v) = map (fun e => (fst e, map (fun tv => (fst tv, 0%Q)) (snd e))) v.
+Proof. exact vv_match_self_sub. Qed.
+Print Assumptions C09_formula_self_sub_is_zero.
+
+(* the label-matching node over two operand queries is the arithmetic of C09_vector_arith_* (whose theorems carry over);
+   an operand is the query as it runs alone unless GetAllLabels was forced on an aggregation *)
+Theorem C09_formula_matching_node_is_run_arith : forall (rmatch : str -> str -> bool) b q1 q2 db,
+  forallb (fun e => Nat.leb (length (q_name q1)) (length (fst e))) (run_query rmatch q1 db) = true ->
+  vv_match (fop_of b) (q_name q1, run_query rmatch q1 db) (q_name q2, run_query rmatch q2 db)
+  = run_arith rmatch b q1 q2 db.
+Proof. exact vv_match_is_run_arith. Qed.
+Print Assumptions C09_formula_matching_node_is_run_arith.
+
+Theorem C09_formula_operand_is_query : forall (rmatch : str -> str -> bool) db q,
+  run_leaf rmatch db q false = leaf_shape q (run_query rmatch q db).
+Proof. exact run_leaf_is_run_query. Qed.
+Print Assumptions C09_formula_operand_is_query.
+
+(* [leaf_shape]: count without grouping clause always has its entry "name{", also without any sample; every other query
+   is its answer *)
+Theorem C09_formula_operand_is_query_not_count : forall (rmatch : str -> str -> bool) db q,
+  count_all q = false -> run_leaf rmatch db q false = run_query rmatch q db.
+Proof. exact run_leaf_is_run_query_not_count. Qed.
+Print Assumptions C09_formula_operand_is_query_not_count.
+
+Theorem C09_formula_selector_operand_forced : forall (rmatch : str -> str -> bool) db name ms,
+  run_leaf rmatch db (QSel name ms) true = run_query rmatch (QSel name ms) db.
+Proof. exact run_leaf_selector_forced. Qed.
+Print Assumptions C09_formula_selector_operand_forced.
+
+(* nested operations with an empty result (fix 962cee9): an empty instant vector is an operand like any other.  Once every
+   operand query has run, no operation of the tree fails; the pre-fix behaviour (the request failed with "result is empty
+   and scalarValuePtr is nil") is kept as documentation: (m{a="zz"} + m{a="zz"}) + m *)
+Theorem C09_formula_never_fails : forall (rmatch : str -> str -> bool) init t db,
+  run_formula rmatch init t db <> None.
+Proof. exact run_formula_never_fails. Qed.
+Print Assumptions C09_formula_never_fails.
+
+Theorem C09_prefix_nested_empty_operand_refuted :
+  exists t db init, run_formula_prefix frag_match init t db = None /\ run_formula frag_match init t db = Some [].
+Proof. exact prefix_nested_empty_operand_refuted. Qed.
+Print Assumptions C09_prefix_nested_empty_operand_refuted.
